@@ -74,6 +74,24 @@ def rowLeq {α : Type} [LE α] [DecidableLE α] : List α → List α → Bool
 def ecdfCount {α : Type} [LE α] [DecidableLE α] (sample : List (List α)) (x : List α) : Nat :=
   (sample.filter fun r => rowLeq r x).length
 
+/-! ### which random stream the IFORM branch for a `TransformedModel` uses -/
+
+/-- `np.random.default_rng(random_state)`: a seed determines the stream; `None` takes fresh
+entropy from the operating system (`entropy` stands for it: a different value in every call). -/
+def rngOf {S : Type} (streamOf : Nat → S) (entropy : Nat) : Option Nat → S
+  | some seed => streamOf seed
+  | none => streamOf entropy
+
+/-- The `TransformedModel` branch of `IFORMContour._compute` for one contour point: the first
+coordinate is a Monte-Carlo marginal quantile, the second a Monte-Carlo conditional quantile given
+the first. `forwardMarg` says whether `marginal_icdf` receives the model's `random_state` (the code
+after the repair of defect #16) or draws with `random_state=None` (before). `e0`, `e1` are the
+entropy values the two calls would see. -/
+def iformTPoint {S A B : Type} (streamOf : Nat → S) (marg : S → A) (cond : S → A → B)
+    (randomState : Option Nat) (forwardMarg : Bool) (e0 e1 : Nat) : A × B :=
+  let a := marg (rngOf streamOf e0 (if forwardMarg then randomState else none))
+  (a, cond (rngOf streamOf e1 randomState) a)
+
 /-! ### `pdf_like` of `conditional_sample`: the evaluation row -/
 
 /-- the loop `for i in range(n_dim): x_hat[:, i] = x if i == dim else given[j]; j += 1`.
